@@ -33,6 +33,7 @@ func runC05(c *Ctx) {
 	c05ForkJoin(c)
 	c05StreamSelect(c)
 	c05TransportGoroutines(c)
+	c05TransportBlocking(c)
 	c05CloseCancelsAll(c)
 }
 
@@ -818,4 +819,79 @@ func c05CloseCancelsAll(c *Ctx) {
 		}
 	}
 	c.R.Check(ok, "close/cancels-every-active-operation", c.pos(fn.Pos()), "for _, cancel := range c.active { cancel() }", "close no longer cancels every active operation: their resolvers keep running after the connection is gone")
+}
+
+// fieldChanCap: minimum constant capacity of the channels stored into struct field (T, name) anywhere in the given functions; -1 if unknown.
+func fieldChanCap(fns []*ssa.Function, fa *ssa.FieldAddr) int64 {
+	cap := int64(-1)
+	name := fieldNameOf(fa)
+	n := 0
+	for _, fn := range fns {
+		for _, b := range fn.Blocks {
+			for _, in := range b.Instrs {
+				st, ok := in.(*ssa.Store)
+				if !ok {
+					continue
+				}
+				fa2, ok := st.Addr.(*ssa.FieldAddr)
+				if !ok || fieldNameOf(fa2) != name || !types.Identical(fa2.X.Type(), fa.X.Type()) {
+					continue
+				}
+				n++
+				mc, ok := st.Val.(*ssa.MakeChan)
+				if !ok {
+					return -1
+				}
+				sz, isC := an.ConstInt(mc.Size)
+				if !isC {
+					return -1
+				}
+				if cap == -1 || sz < cap {
+					cap = sz
+				}
+			}
+		}
+	}
+	if n == 0 {
+		return -1
+	}
+	return cap
+}
+
+// c05TransportBlocking: handler-side blocking channel operations (not only those inside goroutines).
+func c05TransportBlocking(c *Ctx) {
+	c.R.Rule("transport-blocking", "in package transport every channel send outside a select is on a channel whose capacity is a positive constant at every place it is created (so the sender cannot wait for a reader that is gone), and is not inside a loop", 1)
+	fns := transportFuncs(c)
+	n := 0
+	for _, fn := range fns {
+		for _, b := range fn.Blocks {
+			for _, in := range b.Instrs {
+				snd, ok := in.(*ssa.Send)
+				if !ok {
+					continue
+				}
+				n++
+				cap := int64(-1)
+				if fa, ok := loadAddr(snd.Chan).(*ssa.FieldAddr); ok {
+					cap = fieldChanCap(fns, fa)
+				} else {
+					for _, d := range an.Defs(snd.Chan) {
+						if mc, ok := d.(*ssa.MakeChan); ok {
+							if sz, isC := an.ConstInt(mc.Size); isC && (cap == -1 || sz < cap) {
+								cap = sz
+							}
+						} else {
+							cap = -1
+							break
+						}
+					}
+				}
+				c.R.Check(cap >= 1 && !an.CanReach(snd, snd), shortFn(topFn(fn))+"/send", c.ipos(snd), sprintf("buffered channel (capacity %d), sent once", cap),
+					"a plain send on an unbuffered (or unknown-capacity) channel: when the receiving goroutine has already exited (context cancelled, client gone) the sender — the request's handler or one of its goroutines — blocks forever")
+			}
+		}
+	}
+	if n == 0 {
+		c.R.Fail("transport-blocking found no channel send in package transport")
+	}
 }
